@@ -50,14 +50,24 @@ func c12Listeners(r *Run, rng *Rng, n int) {
 				}
 				live = append(live[:i:i], live[i+1:]...)
 			default:
+				// a queue update never blocks, however many notifications its listeners have not
+				// consumed yet (the engine goroutine calls these while it holds its own locks)
+				var okq bool
 				if queued > 0 && rng.Bool() {
-					q.Dequeue()
-					queued--
 					ops = append(ops, "deq")
+					okq, _ = withTimeout(2*time.Second, func() { q.Dequeue() })
+					queued--
 				} else {
-					q.Enqueue(&driver.NoopCommand{ID: fmt.Sprintf("n%d", s)})
-					queued++
 					ops = append(ops, "enq")
+					id := fmt.Sprintf("n%d", s)
+					okq, _ = withTimeout(2*time.Second, func() { q.Enqueue(&driver.NoopCommand{ID: id}) })
+					queued++
+				}
+				r.Checked("listener.update-returns")
+				if !okq {
+					r.Failf("C12.listener.notify-blocks", desc(), "a queue update did not return within 2 s: notifying a listener that already holds a pending notification blocks")
+					failed = true
+					break
 				}
 				for _, l := range live {
 					l.pending = true
